@@ -25,3 +25,61 @@ def add_parallel_contracts(reg):
     """contracts of the block-distribution helpers (proved under C20) for use at call sites"""
     from props import C20
     C20.contracts(reg)
+
+
+def plain_basis_properties(models):
+    """outside the C04 plan the basis-managed array properties (utils/types.py factories) are read and written as
+    their storage field `_<name>`: i.e. the proofs are for the situation with no basis context active, in which the
+    getter/setter closures reduce to plain access (that reduction itself is an obligation of C04)"""
+    import ast
+    from qvc.values import Obj
+    FACT = {"basis_managed_array_property", "managed_array_property", "BasisManagedComplexArray",
+            "BasisManagedRealArray", "BasisManagedArray"}
+
+    def storage(obj, name):
+        cls = obj.cls
+        if not hasattr(cls, "lookup") or name in obj.fields:
+            return None
+        r = cls.lookup(name)
+        if r is None or r[0] != "attr" or not isinstance(r[2], ast.Call):
+            return None
+        f = r[2].func
+        fname = f.id if isinstance(f, ast.Name) else getattr(f, "attr", None)
+        if fname in FACT and r[2].args and isinstance(r[2].args[0], ast.Constant):
+            return "_" + r[2].args[0].value
+        return None
+
+    def g(ex, obj, name, line):
+        st = storage(obj, name)
+        if st is None:
+            return None
+        ex.used_models.add("assume:basis-managed property read outside any basis context")
+        if st not in obj.fields:
+            from qvc.symex import RaiseSignal
+            raise RaiseSignal("AttributeError", line=line)
+        return (obj.fields[st],)
+
+    def s(ex, obj, name, v, line):
+        st = storage(obj, name)
+        if st is None:
+            return False
+        ex.used_models.add("assume:basis-managed property written outside any basis context")
+        ex.set_field(obj, st, v)
+        return True
+    models.hooks_getattr.append(g)
+    models.hooks_setattr.append(s)
+
+
+def transparent_units_contexts(models):
+    """`with energy_units("int")` around code that works on internal (storage) values: the context object is a no-op
+    stand-in here; that contexts restore the units is the subject of C05"""
+    from qvc.values import Obj, Builtin
+
+    def hook(ex, cinfo, args, kwargs, line):
+        if cinfo.name in ("energy_units", "frequency_units", "length_units"):
+            ex.used_models.add("assume:units context transparent for internal-units code (C05)")
+            return (Obj("units_context(stand-in)", {
+                "__enter__": Builtin("units.__enter__", lambda ex_, a, k, l: None),
+                "__exit__": Builtin("units.__exit__", lambda ex_, a, k, l: None)}),)
+        return None
+    models.hooks_instantiate.append(hook)
